@@ -192,6 +192,7 @@ type c18Mux struct {
 	// crash is reported under its own signature even while a connection-leak defect reachable
 	// by the same programs cuts the exploration of "mux" short).
 	crashOnly bool
+	zeroFirst bool
 }
 
 func (m *c18Mux) fail(format string, a ...any) {
@@ -299,6 +300,10 @@ func (m *c18Mux) deliver(first int, preload []byte) {
 	rec := &c18ConnRec{idx: m.nconn, first: first, preload: preload}
 	m.nconn++
 	rec.cli, rec.srv = vnet.Pipe(fmt.Sprintf("cli%d", rec.idx), fmt.Sprintf("conn%d", rec.idx), 64)
+	// the accepted connection's first Read may return (0, nil) before any data (a cost-free
+	// choice per execution: legal for an io.Reader; added after the seeded change C18-5, a single unchecked Read
+	// for the protocol-detection byte)
+	rec.srv.ZeroFirstRead = m.zeroFirst
 	if len(rec.preload) > 0 {
 		_, _ = rec.cli.Write(rec.preload)
 	}
@@ -375,6 +380,9 @@ func c18MuxBody(progs []c18Prog, crashOnly bool) func(e *vsched.Exec) {
 		prog := progs[e.Choose(len(progs), vsched.KFree, "program")]
 		e.Logf("program: %s", prog)
 		m := &c18Mux{e: e, base: vnet.NewListener("base"), crashOnly: crashOnly}
+		if prog.count(c18C5)+prog.count(c18CG)+prog.count(c18CE) > 0 {
+			m.zeroFirst = e.Choose(2, vsched.KFree, "zero-first-read") == 1
+		}
 		m.pendingL = [2]int{prog.count(c18LS), prog.count(c18LH)}
 		m.ml = newMuxListener(m.base, func() { m.deleted++ })
 		m.run(prog[0]) // the Listen that made the manager create the mux
@@ -391,6 +399,7 @@ func c18MuxBody(progs []c18Prog, crashOnly bool) func(e *vsched.Exec) {
 func c18FirstByteBody(e *vsched.Exec) {
 	b := e.Choose(256, vsched.KFree, "first-byte")
 	m := &c18Mux{e: e, base: vnet.NewListener("base")}
+	m.zeroFirst = e.Choose(2, vsched.KFree, "zero-first-read") == 1
 	m.pendingL = [2]int{1, 1}
 	m.ml = newMuxListener(m.base, func() { m.deleted++ })
 	m.run(c18LS)
